@@ -79,7 +79,8 @@ TreesOK(tr, sc, tn, cov, lost) ==
                  cks == SeqToSet(t.ck)
              IN  /\ \A j \in DOMAIN t.roots : VerdictOK(t.roots[j][2], tn)                            \* RootLaw
                  /\ \A j \in DOMAIN t.wit : VerdictOK(t.wit[j][3], tn) /\ t.wit[j][4] = "pos-ok"      \* WitnessLaw
-                 /\ \A h \in cks : h <= Max2(mx, 0)                  \* no checkpoint above everything scanned (0: the birthday frontier)
+                 /\ \A h \in cks : h <= Max2(mx, 0) \/ h \in mck'[i]  \* no checkpoint above everything scanned (0: the birthday frontier;
+                                                                      \* mck: the frontier a truncate_to_chain_state caller supplied)
                  /\ \A j \in DOMAIN t.ret : t.ret[j] \in cks \/ t.ret[j] > mx
                  /\ \A h \in cov : h \in cks \/ (<< h, i >> \in lost /\ KnownRetain(h, i))    \* RetainedBoundaries
 
@@ -158,17 +159,27 @@ TScan == /\ IsEvent("scan") /\ UNCHANGED locks /\ UNCHANGED sugg /\ ClientStep(R
                /\ UNCHANGED wvars /\ UNCHANGED cvars
          /\ PostOK(Rec[l].post)
 
+\* truncate_to_height(req) = Ok(to) settles on the logged height.  truncate_to_chain_state(req) returns nothing: it
+\* settles on req, or -- when no scanned block at or below req can be truncated to -- first falls back to the oldest
+\* shared checkpoint (an unlogged height eff < req that TLC infers from the projection) and then plants the caller's
+\* frontier at req
+TruncTo(eff) ==
+    /\ Truncate(Rec[l].req, eff, Rec[l].fork, Rec[l].to)
+    /\ (IOEnv.CHECK_TREES = "1" /\ ~Rec[l].cs) => eff \in scanned                \* TruncateLaw: truncate_to_height settles on a scanned height
+    /\ (IOEnv.CHECK_TREES = "1" /\ Rec[l].post.chk) =>                             \* ... and nothing survives above the requested height
+          \A j \in DOMAIN Rec[l].post.trees.S.ck : Rec[l].post.trees.S.ck[j] <= Rec[l].to
+    /\ covered' = { h \in covered : h <= eff }
+    /\ lostOK' = { x \in lostOK : x[1] <= eff }
+    /\ mck' = [i \in 1..3 |-> { c \in mck[i] : c <= eff } \cup
+                    \* truncate_to_chain_state inserts the caller's frontier as a checkpoint when it rewinds scanned blocks
+                    (IF Rec[l].cs /\ \E b \in scanned : b > Rec[l].to THEN { Rec[l].to } ELSE {})]
+    /\ mret' = [i \in 1..3 |-> { c \in mret[i] : c <= eff }]
+    /\ cmAt' = IF Rec[l].fork THEN [x \in 1..Min2(top, Rec[l].to) |-> cmAt[x]] ELSE cmAt
+    /\ UNCHANGED << grid, gbase >>
 TTrunc == /\ IsEvent("trunc") /\ UNCHANGED locks /\ UNCHANGED sugg
-          /\ \/ /\ Rec[l].res = "ok" /\ Truncate(Rec[l].req, Rec[l].to, Rec[l].fork)
-                /\ (IOEnv.CHECK_TREES = "1") => Rec[l].to \in scanned     \* TruncateLaw: the wallet settles on a scanned height
-                /\ (IOEnv.CHECK_TREES = "1" /\ Rec[l].post.chk) =>        \* ... and nothing survives above it
-                      \A j \in DOMAIN Rec[l].post.trees.S.ck : Rec[l].post.trees.S.ck[j] <= Rec[l].to
-                /\ covered' = { h \in covered : h <= Rec[l].to }
-                /\ lostOK' = { x \in lostOK : x[1] <= Rec[l].to }
-                /\ mck' = [i \in 1..3 |-> { c \in mck[i] : c <= Rec[l].to }]
-                /\ mret' = [i \in 1..3 |-> { c \in mret[i] : c <= Rec[l].to }]
-                /\ cmAt' = IF Rec[l].fork THEN [x \in 1..Min2(top, Rec[l].to) |-> cmAt[x]] ELSE cmAt
-                /\ UNCHANGED << grid, gbase >>
+          /\ \/ /\ Rec[l].res = "ok" /\ ~Rec[l].cs /\ TruncTo(Rec[l].to)
+             \/ /\ Rec[l].res = "ok" /\ Rec[l].cs /\ Rec[l].to = Rec[l].req
+                /\ \E eff \in 0..Rec[l].req : TruncTo(eff)
              \/ Rec[l].res = "err" /\ UNCHANGED wvars /\ UNCHANGED cvars        \* refusals are legitimate (relational)
           /\ PostOK(Rec[l].post)
 
